@@ -219,8 +219,14 @@ class MappingStorage:
             # Step 2, GC.  A simple sweep+copy
             new_data = BTrees.OOBTree.OOBTree()
             to_copy = {ZODB.utils.z64}
+            # Objects written after the pack time are kept as well: their
+            # transactions must stay listed and they may get referenced.
+            to_copy.update(oid for oid, tid_data in self._data.items()
+                           if tid_data.maxKey() > stop)
             while to_copy:
                 oid = to_copy.pop()
+                if oid in new_data:
+                    continue
                 tid_data = self._data.pop(oid)
                 new_data[oid] = tid_data
                 for pickle in tid_data.values():
